@@ -18,7 +18,7 @@ META = {
     "require": {t: ["class:fact=cols", "class:fact=1col", "class:w=scalar", "class:w=tuple", "class:w=array",
                     "class:w=none", "class:ignore", "class:propagate", "class:xdtype=from_index", "class:xdtype=signed",
                     "class:ndims=0", "class:ndims>=3", "class:xshape=inferred", "class:fact=int",
-                    "class:cols+weights+propagate", "compared:ccube", "compared:xcube", "class:cell_counter_on_boundary", "class:more_than_1024_cells",
+                    "class:cols+weights+propagate", "compared:ccube", "compared:xcube", "class:cell_counter_on_boundary", "class:more_than_1024_cells", "class:cells_of_very_unequal_weight",
                     "class:argument_objects_shared_between_calls", "format:nan", "format:tuple", "format:plain0"] for t in ("quick", "thorough")},
     "assumptions": ["tolerance 1e-9*max(1, sum|w*x|) (x20 for means); missing sets compared exactly",
                     "weights are >= 0 and never tiny-positive (< 0.05), so 'weight sum is zero' is unambiguous",
@@ -39,6 +39,12 @@ def cases(ctx):
             c = aggr.many_cells_case(rng)
             c["xdtype"] = gen.pick(rng, ["signed", "unsigned", "int64"])
             c["xshape_inferred"] = bool(rng.random() < 0.3)
+            yield c
+            continue
+        if i % 40 == 31:
+            c = aggr.unequal_cells_case(rng)
+            c["xdtype"] = gen.pick(rng, ["signed", "unsigned", "int64"])
+            c["xshape_inferred"] = False
             yield c
             continue
         if i % 40 == 7:
@@ -104,6 +110,8 @@ def judge(ctx, case):
         ctx.count("class:cell_counter_on_boundary")
     if case.get("many_cells"):
         ctx.count("class:more_than_1024_cells")
+    if case.get("unequal_cells"):
+        ctx.count("class:cells_of_very_unequal_weight")
     # every second input hands the SAME argument objects to all of its calls (index cube first)
     shared = {} if n % 2 == 0 else None
     if shared is not None:
